@@ -66,6 +66,11 @@ CHECKS = {
          'Held (apart from the recorded window-conversion finding for sec/hour at the CLI) on N histories: no client was admitted more than the bound in any interval, clients built to stay within the rate were never rejected, each client was admitted exactly as when alone, forged forwarding headers did not open new buckets while proxies are untrusted, 429s never ran the body, and 640-way concurrent floods admitted at most N.',
          'Trusts the sed-generated clock overlay and the pairwise bound (with a slack of one token for integer refill rounding). Ticker-driven eviction (real clock, 60 s) is not reached.',
          'DESIGN.md §3 C11'),
+ 'C10': ('exploration',
+         'robustness monitor in RLIMIT_AS children (panic / process death / allocation bound / watchdog) over mutated and structured hostile source and bytecode, plus an agreement monitor using the VM step hook (build tag verif): executed offsets and opcodes vs the decompiler's instruction boundaries, constants vs the loaded pool, reference container walker',
+         'Held on N mutated / generated / stressor inputs through lexer, expanded lexer, parser, VM (step limit) and decompiler: every call ended in a result or a diagnostic within the allocation bound; and on N compiled programs (O0/O1/O3, incl. match and async): the VM executed them without format errors, the decompiler disassembled them completely, constants agreed, and every executed instruction started at a disassembled instruction of the same opcode.',
+         'Trusts the reference walker of the container layout (c10.go) and the hook (pkg/vm/verifhook_on.go). The allocation bound (256 MiB + 8 KiB per input byte) and the 20 s watchdog are deliberately loose. Async bodies run on a separate VM and are not covered by the offset comparison.',
+         'DESIGN.md §3 C10'),
 }
 NA = {}
 for p in props:
@@ -79,7 +84,7 @@ m = {
    'guard': 'verif',
    'enable': 'go build -tags verif (checks add -overlay for in-package test drivers and the virtual clock; see mkoverlay.sh)',
    'baseline_off_cmd': "cd /repo && GOFLAGS=-mod=mod go test -json -vet=off -count=1 -timeout 25m ./...",
-   'source_commits': [],
+   'source_commits': ['36f6d04'],
    'add_only': True,
  },
  'engines': [
